@@ -31,6 +31,7 @@ PINNED_LRU = {
     "expire_op": ">",
     "pop_last": False,
     "result_index": [1, 1],
+    "key_form": "tuple(args, frozenset(kwargs.items()))",
 }
 
 CMP = {ast.LtE: "<=", ast.Lt: "<", ast.GtE: ">=", ast.Gt: ">", ast.Eq: "==", ast.NotEq: "!="}
@@ -195,7 +196,7 @@ def lru(src):
     lines = []
     expire_op = pop_last = None
     res_idx = [None, None]
-    time_var = result_var = key_var = None
+    time_var = result_var = key_var = key_form = None
     for s in w.body:
         if isinstance(s, (ast.Nonlocal, ast.Expr)) and not (isinstance(s, ast.Expr) and isinstance(s.value, ast.Call)):
             continue
@@ -204,8 +205,17 @@ def lru(src):
             if _is_name(t) and isinstance(v, ast.Call) and isinstance(v.func, ast.Attribute) and v.func.attr == "time":
                 time_var = t.id
                 lines.append([s.lineno, "clk"])
-            elif _is_name(t) and isinstance(v, ast.Tuple) and key_var is None and len(lines) == 1:
-                key_var = t.id  # key = (args, frozenset(kwargs.items())): local
+            elif _is_name(t) and key_var is None and len(lines) == 1 and not isinstance(v, ast.ListComp):
+                key_var = t.id  # key = (args, frozenset(kwargs.items())): local, but HOW it is built decides what "equal arguments" means
+                va, vk = w.args.vararg.arg, w.args.kwarg.arg
+                fs = v.elts[1] if isinstance(v, ast.Tuple) and len(v.elts) == 2 else None
+                if (fs is not None and _is_name(v.elts[0], va) and isinstance(fs, ast.Call) and _is_name(fs.func, "frozenset")
+                        and len(fs.args) == 1 and not fs.keywords and isinstance(fs.args[0], ast.Call) and not fs.args[0].args
+                        and isinstance(fs.args[0].func, ast.Attribute) and fs.args[0].func.attr == "items"
+                        and _is_name(fs.args[0].func.value, vk)):
+                    key_form = "tuple(args, frozenset(kwargs.items()))"
+                else:
+                    key_form = "other: " + ast.unparse(v)[:120]
             elif _is_name(t) and isinstance(v, ast.ListComp):
                 g = v.generators[0]
                 it = g.iter
@@ -276,9 +286,9 @@ def lru(src):
                 raise KeyError("final return")
         else:
             raise KeyError("unrecognised statement at line %d" % s.lineno)
-    if expire_op is None or pop_last is None or None in res_idx:
+    if expire_op is None or pop_last is None or None in res_idx or key_form is None:
         raise KeyError("incomplete lru wrapper")
-    return {"lines": lines, "expire_op": expire_op, "pop_last": bool(pop_last), "result_index": res_idx}
+    return {"lines": lines, "expire_op": expire_op, "pop_last": bool(pop_last), "result_index": res_idx, "key_form": key_form}
 
 
 def generate(o):
@@ -298,5 +308,7 @@ def generate(o):
     text += "def lruPopLast : Bool := %s\n" % ("true" if l["pop_last"] else "false")
     text += "/-- index of the result in the stored tuple, and the index the hit path returns -/\n"
     text += "def lruResultIndex : Nat × Nat := (%d, %d)\n" % tuple(l["result_index"])
+    text += "/-- how the LRU wrapper builds the dictionary key from the call's arguments (anything but the tuple of the positional arguments and the frozenset of the keyword items changes what `equal arguments` means, e.g. a hash) -/\n"
+    text += "def lruKeyForm : String := %s\n" % lean_str(l.get("key_form", PINNED_LRU["key_form"]))
     text += "end Gen.Cache\n"
     o.files["Cache.lean"] = text
